@@ -277,6 +277,21 @@ func (t *SymbolTable) FindTable(id string) (*SymbolTable, bool) {
 	return nil, false
 }
 
+// truncate removes the symbols with an index of count or above, together with
+// their names, and all but the first tables child tables. This undoes the
+// insertions of a compilation that failed.
+func (t *SymbolTable) truncate(count, tables int) {
+	for _, s := range t.symbols[count:] {
+		// Symbols of nested blocks use an index of this table but are named
+		// in the table of their block, which is removed as a whole.
+		if t.symbolsByName[s.name] == s {
+			delete(t.symbolsByName, s.name)
+		}
+	}
+	t.symbols = t.symbols[:count]
+	t.children = t.children[:tables]
+}
+
 // NewSymbolTable returns a new root symbol table.
 func NewSymbolTable() *SymbolTable {
 	return &SymbolTable{
